@@ -460,6 +460,11 @@ class API:
                 target = self._generate_targets.get(target_name)
                 if target is None:
                     raise UnknownTargetException(target_name)
+                if target_name not in self._config.model_fields_set:
+                    raise ConfigurationException(f"Missing configuration for 'generate.{target_name}'!")
+                # The generator instances are shared by all contexts of one API object and are configured by whichever
+                # context parsed last: apply the configuration this IDL was parsed with before generating.
+                target.configure(self._config)
                 target.generate(self.defs, clean=clean, copy_support_lib_sources=self._config.support_lib_sources)
                 return self
 
